@@ -193,3 +193,140 @@ if __name__ == "__main__":
     import sys
     for n, toks in accesses(sys.argv[1] if len(sys.argv) > 1 else "/repo"):
         print(n, toks)
+
+
+# --------------------------------------------------------------------------------------------------
+# C20_FS_EVENT_FILTER: which notify event kinds make the fs-watcher closure request a reload.
+# The `matches!(kind, <pattern>)` of `with_fs_watcher` is parsed and evaluated on EVERY concrete
+# event kind of the vendored `notify-types` crate (variant lists regenerated from its event.rs, the
+# version pinned in /repo/Cargo.lock), so a narrowed pattern (e.g. only some RenameMode variants)
+# shows up as rejected kinds and the coverage theorem `MJ.C20.every_namespace_change_event_requests`
+# fails.
+
+def _notify_types_src(repo):
+    import glob, os
+    lock = read(repo, "Cargo.lock")
+    m = re.search(r'name = "notify-types"\s*\nversion = "([^"]+)"', lock)
+    if not m:
+        raise KeyError("notify-types not in Cargo.lock")
+    home = os.environ.get("CARGO_HOME", os.path.expanduser("~/.cargo"))
+    hits = sorted(glob.glob(os.path.join(home, "registry", "src", "*", "notify-types-" + m.group(1), "src", "event.rs")))
+    if not hits:
+        raise KeyError("vendored notify-types-%s source not found" % m.group(1))
+    with open(hits[0], encoding="utf-8") as fh:
+        return fh.read(), m.group(1)
+
+
+def _enums(src):
+    """{enum name: [(variant, payload type or None)]}"""
+    src = re.sub(r"//[^\n]*", "", src)
+    res = {}
+    for m in re.finditer(r"pub\s+enum\s+(\w+)\s*\{", src):
+        i = m.end()
+        d, j = 1, i
+        while d:
+            d += {"{": 1, "}": -1}.get(src[j], 0)
+            j += 1
+        body = re.sub(r"#\[[^\]]*\]", "", src[i:j - 1])
+        res[m.group(1)] = [(v, t) for v, t in re.findall(r"\b([A-Z]\w*)\s*(?:\(\s*(\w+)\s*\))?\s*,", body)]
+    return res
+
+
+def _values(enums, name):
+    """every concrete value of enum `name` as a path of variant names"""
+    out = []
+    for v, t in enums[name]:
+        if t and t in enums:
+            out += [[v] + rest for rest in _values(enums, t)]
+        elif t:
+            raise KeyError("payload type %s of %s::%s is not an enum of event.rs" % (t, name, v))
+        else:
+            out.append([v])
+    return out
+
+
+def _parse_pattern(text):
+    toks = re.findall(r"[A-Za-z_][A-Za-z0-9_]*(?:\s*::\s*[A-Za-z_][A-Za-z0-9_]*)*|[|()]", text)
+    pos = [0]
+
+    def alt():
+        t = toks[pos[0]]
+        pos[0] += 1
+        if t == "_":
+            return ("_",)
+        if t in "|()":
+            raise KeyError("unexpected %r in event pattern" % t)
+        name = re.split(r"\s*::\s*", t)[-1]
+        sub = None
+        if pos[0] < len(toks) and toks[pos[0]] == "(":
+            pos[0] += 1
+            sub = pat()
+            if toks[pos[0]] != ")":
+                raise KeyError("unbalanced event pattern")
+            pos[0] += 1
+        return ("v", name, sub)
+
+    def pat():
+        if pos[0] < len(toks) and toks[pos[0]] == "|":
+            pos[0] += 1
+        alts = [alt()]
+        while pos[0] < len(toks) and toks[pos[0]] == "|":
+            pos[0] += 1
+            alts.append(alt())
+        return alts
+
+    p = pat()
+    if pos[0] != len(toks):
+        raise KeyError("trailing tokens in event pattern")
+    return p
+
+
+def _matches(alts, value):
+    for a in alts:
+        if a[0] == "_":
+            return True
+        _, name, sub = a
+        if value and value[0] == name:
+            if sub is None and len(value) == 1:
+                return True
+            if sub is not None and len(value) > 1 and _matches(sub, value[1:]):
+                return True
+    return False
+
+
+def fs_event_filter(repo):
+    src = re.sub(r"//[^\n]*", "", read(repo, SRC))
+    m = re.search(r"fn\s+with_fs_watcher\b", src)
+    if not m:
+        raise KeyError("with_fs_watcher")
+    mm = re.search(r"matches!\s*\(\s*kind\s*,", src[m.end():])
+    if not mm:
+        raise KeyError("matches!(kind, …) in with_fs_watcher")
+    i = m.end() + mm.end()
+    d, j = 1, i
+    while d:
+        d += {"(": 1, ")": -1}.get(src[j], 0)
+        j += 1
+    pattern_text = src[i:j - 1]
+    if re.search(r"\bif\b", pattern_text):
+        raise KeyError("event pattern has a guard; not supported by the extractor")
+    alts = _parse_pattern(pattern_text)
+    nsrc, version = _notify_types_src(repo)
+    enums = _enums(nsrc)
+    for need in ("EventKind", "ModifyKind", "RenameMode", "CreateKind", "RemoveKind", "DataChange", "MetadataKind", "AccessKind"):
+        if need not in enums:
+            raise KeyError("enum %s not found in notify-types" % need)
+    table = [(v, _matches(alts, v)) for v in _values(enums, "EventKind")]
+    return table, enums, version
+
+
+@item("C20_FS_EVENT_FILTER")
+def _fs_event_filter(repo):
+    table, enums, version = fs_event_filter(repo)
+    lst = lambda xs: "[" + ", ".join(lean_str(x) for x in xs) + "]"
+    rows = ",\n  ".join("(" + lst(v) + ", " + ("true" if ok else "false") + ")" for v, ok in table)
+    lean = ("/-- every concrete `notify::EventKind` (notify-types " + version + ") and whether the fs-watcher closure requests a reload for it -/\n"
+            "def fsEventFilter : List (List String × Bool) := [\n  " + rows + "]\n"
+            + "\n".join("def notify%s : List String := %s" % (n, lst([v for v, _ in enums[n]]))
+                        for n in ("EventKind", "ModifyKind", "RenameMode", "CreateKind", "RemoveKind", "DataChange", "MetadataKind")))
+    return {"version": version, "accepted": [v for v, ok in table if ok], "rejected": [v for v, ok in table if not ok]}, lean
